@@ -39,8 +39,8 @@ def G.write (g : G) (s : GoStr) : G × Range :=
   let nl := countNl s
   let pos : Pos :=
     match lastIndexNl s with
-    | some i => { line := g.pos.line + nl, col := (s.length : Int) - (i : Int) }
-    | none => { line := g.pos.line, col := g.pos.col + s.length }
+    | some i => { line := g.pos.line + nl, col := 1 + (utf16Len (s.drop (i+1)) : Nat) }
+    | none => { line := g.pos.line, col := g.pos.col + (utf16Len s : Nat) }
   ({ g with out := s :: g.out, pos := pos }, { frm := frm, to := pos })
 
 def G.add (g : G) (t : Tok) (r : Range) : G := { g with log := (t, r) :: g.log }
@@ -310,7 +310,7 @@ def emitNode (n : Node) (needsClose : Bool) (nextSib : Option Node) (g : G) (w :
     let (g, w, _) := twWrite g w (bs "// Code generated by GoHT - DO NOT EDIT.\n// https://github.com/stackus/goht\n\n")
     let (g, w, _) := twWrite g w (bs "package ")
     let (g, w, r) := twWrite g w pkg.lit
-    let g := g.add pkg r
+    let g := if pkg.line > 0 then g.add pkg r else g
     let (g, w, _) := twWrite g w (bs "\n\n")
     let (g, w, _) := twWrite g w (bs "import \"context\"\n")
     let (g, w, _) := twWrite g w (bs "import \"io\"\n")
